@@ -97,13 +97,23 @@ def corrections(darsia, rng, shape, workdir):
         warnings.simplefilter("ignore")
         gp = darsia.GeneralizedPerspectiveCorrection(src.coordinatesystem, dst.coordinatesystem, ps, pd, {"tol": 1e-3, "maxiter": 20})
     out.append(("perspective-reframe", gp, False, False))
+    # the same for images of unusual physical size: nanometre-sized frames, frames of thousands of kilometres whose declared
+    # placement differs from the image's by a relative 1e-6
+    for tag, sc, dd in (("nano", 1e-9, 0.5), ("mega", 4e6, 2.5e-6)):
+        src_ = darsia.Image(np.zeros((H, W)), space_dim=2, dimensions=[0.5 * H * sc, 0.25 * W * sc], origin=[1.0 * sc, 2.0 * sc], scalar=True)
+        dst_ = darsia.Image(np.zeros((H + 1, W + 2)), space_dim=2, dimensions=[(0.5 * H + dd) * sc, (0.25 * W + dd) * sc], origin=[(1.0 - dd) * sc, (2.0 + dd) * sc], scalar=True)
+        with warnings.catch_warnings(), contextlib.redirect_stdout(io.StringIO()):
+            warnings.simplefilter("ignore")
+            gp_ = darsia.GeneralizedPerspectiveCorrection(src_.coordinatesystem, dst_.coordinatesystem, ps, pd, {"tol": 1e-3, "maxiter": 20})
+        gp_._verif_scale = sc
+        out.append(("perspective-reframe-" + tag, gp_, False, False))
     return out
 
 
 DPAT = [-1]
 
 
-def make_input(darsia, rng, kind, shape, dtype, layout="C"):
+def make_input(darsia, rng, kind, shape, dtype, layout="C", mscale=1.0):
     """layout = memory layout of the caller's array (C, F, or a moved-axis view): the values are what counts"""
     H, W = shape
     rs = np.random.RandomState(rng.randrange(10 ** 6))
@@ -126,7 +136,7 @@ def make_input(darsia, rng, kind, shape, dtype, layout="C"):
             a = np.moveaxis(np.ascontiguousarray(np.moveaxis(a, 2, 0)), 0, 2)
         return a
 
-    kw = dict(dimensions=[0.5 * H, 0.25 * W], origin=[1.0, 2.0])
+    kw = dict(dimensions=[0.5 * H * mscale, 0.25 * W * mscale], origin=[1.0 * mscale, 2.0 * mscale])
     if kind == "array":
         return data((H, W, 3))
     if kind == "array-scalar":
@@ -247,7 +257,7 @@ def run(ck, replay=None):
                     layouts = ["C"] + (["moved"] if sk in ("series", "series-scalar", "optical", "array") else []) + (["F"] if rng.random() < 0.3 else [])
                     for layout in layouts:
                         dtype = rng.choice(["float64", "float32", "uint8"] if name.startswith(("type", "colour")) else ["float64", "float32"])
-                        inp = make_input(darsia, rng, sk, shape, dtype, layout)
+                        inp = make_input(darsia, rng, sk, shape, dtype, layout, mscale=getattr(corr, "_verif_scale", 1.0))
                         e = apply_case(darsia, name, copy.deepcopy(corr), neutral, sk, overwrite, inp)
                         e["tid"] = f"{name}:{sk}:{int(overwrite)}:{layout}:{rep}"
                         e["dtype"] = dtype
